@@ -361,7 +361,7 @@ func (s *Server) handleMessage(msg json.RawMessage) {
 	// Handle the request
 	if req.ID != nil {
 		// It's a request expecting a response
-		result, err := s.handler.HandleRequest(req.Method, req.Params)
+		result, err := s.safeHandleRequest(req.Method, req.Params)
 		if err != nil {
 			s.sendError(req.ID, InternalError, err.Error())
 		} else {
@@ -369,8 +369,33 @@ func (s *Server) handleMessage(msg json.RawMessage) {
 		}
 	} else {
 		// It's a notification
-		s.handler.HandleNotification(req.Method, req.Params)
+		s.safeHandleNotification(req.Method, req.Params)
 	}
+}
+
+// safeHandleRequest runs the request handler and converts a panic into an
+// error, so that the request is still answered (with InternalError) and the
+// message loop keeps running.
+func (s *Server) safeHandleRequest(method string, params json.RawMessage) (result interface{}, err error) {
+	defer func() {
+		if r := recover(); r != nil {
+			s.logger.Printf("Recovered from panic while handling request %s: %v", method, r)
+			result = nil
+			err = fmt.Errorf("internal error while handling %s: %v", method, r)
+		}
+	}()
+	return s.handler.HandleRequest(method, params)
+}
+
+// safeHandleNotification runs the notification handler and keeps the message
+// loop running if the handler panics.
+func (s *Server) safeHandleNotification(method string, params json.RawMessage) {
+	defer func() {
+		if r := recover(); r != nil {
+			s.logger.Printf("Recovered from panic while handling notification %s: %v", method, r)
+		}
+	}()
+	s.handler.HandleNotification(method, params)
 }
 
 // handleMalformedRequest attempts to extract an ID from malformed JSON and send error
